@@ -3,10 +3,11 @@
      a0 = [cfg_id]                      (selects the Rust type in the harness; ignored here)
      a1 = [deg; p] or [deg; p; nr]      field: Fp, Fp2 = Fp[X]/(X^2-nr), Fp3 = Fp[X]/(X^3-nr)
      a2 = prime-field SQRT_PRECOMP      [0] none | [1; (p+1)/4] Case3Mod4 | [2; s; z; tm1d2] TonelliShanks
-     a3 = Fp3 data                      [s; tm1d2; z0; z1; z2; C1_0; C1_1; C1_2; C2_0; C2_1; C2_2]  (else empty)
+     a3 = Fp3 data                      [s; tm1d2; z0; z1; z2; C1_0; C1_1; C1_2; C2_0; C2_1; C2_2]
+          prime fields: [GENERATOR];  Fp2: empty
      a4.. operands (coordinate lists)
    Status: [0] ok, [2] panic, [1;7] model fuel exhausted, [1;8] legendre <> Euler criterion, [9] unsupported. *)
-From V Require Import Base.Field C11.SqrtModel.
+From V Require Import Base.Word Base.Field C15.BigIntModel C11.SqrtModel C11.ConstModel.
 
 Definition ok (r : list (list Z)) : list (list Z) := [0] :: r.
 Definition err (k : Z) : list (list Z) := [[1; k]].
@@ -144,13 +145,33 @@ Definition precomp_ok (deg p nr : Z) (a : list (list Z)) : bool :=
   | _ => false
   end.
 
+(* op 7 on a prime field additionally answers with the constants themselves, COMPUTED BY THE MODEL FROM THE
+   MODULUS (limb-level, C11/ConstModel.v: const_add_with_carry / divide_by_2_round_down / top-bit fix-up for
+   (p+1)/4; two_adic_valuation / two_adic_coefficient for TWO_ADICITY / TRACE) and the configured GENERATOR g:
+     [SQRT_PRECOMP as [1; (p+1)/4] | [2; s; g^t; (t-1)/2]];
+     [TWO_ADICITY; TRACE; TRACE_MINUS_ONE_DIV_TWO; MODULUS_MINUS_ONE_DIV_TWO; MODULUS_BIT_SIZE];
+     [GENERATOR; TWO_ADIC_ROOT_OF_UNITY = g^TRACE]
+   the harness prints what the compiled configuration holds, so a wrong constant is a disagreement even when
+   no generated sqrt input happens to expose it.  [1;6] = the const fns would fail (even modulus). *)
+Definition consts_out (p g : Z) : option (list (list Z)) :=
+  match sqrt_precomp_of_modulus (fun b e => pow_mod b e p) p g, prime_consts_of_modulus p with
+  | Some pc, Some cs => Some [pc; cs; [g mod p; pow_mod g (nth 1 cs 0) p]]
+  | _, _ => None
+  end.
+
 Definition run_C11 (op : Z) (a : list (list Z)) : list (list Z) :=
   let deg := argn 1 0 a in
   let p := argn 1 1 a in
   let nr := (argn 1 2 a) mod p in
   let pc := fp_precomp p (arg 2 a) in
   if p <=? 2 then unsupported else
-  if op =? 7 then ok [[Z.b2z (precomp_ok deg p nr a)]] else
+  if op =? 7 then
+    (if deg =? 1 then
+       match consts_out p (argn 3 0 a) with
+       | Some cs => ok ([Z.b2z (precomp_ok deg p nr a)] :: cs)
+       | None => err 6
+       end
+     else ok [[Z.b2z (precomp_ok deg p nr a)]]) else
   match deg with
   | 1 => run_ops (SF1 p pc) p op a
   | 2 => run_ops (SF2 p nr pc) (p * p) op a
